@@ -136,7 +136,8 @@ class Tensor:
         if (yamlfile != ""):
             assert(rank_ids is None and shape is None)
 
-            (rank_ids, root, shape, name) = self.parse(yamlfile)
+            (rank_ids, root, shape, name, default) = self.parse(yamlfile,
+                                                                default)
 
             if shape is None:
                 shape = root.estimateShape()
@@ -229,13 +230,14 @@ class Tensor:
             Filename of file containing a YAML representation of a tensor
 
 
-        Todo
-        ----
+        Notes
+        -----
 
-        YAML file does not provide a non-zero default value
+        The default value of the tensor is taken from the YAML file,
+        files without a "default" entry get a default value of zero.
 
         """
-        (rank_ids, root, shape, name) = Tensor.parse(yamlfile)
+        (rank_ids, root, shape, name, default) = Tensor.parse(yamlfile)
 
         if not isinstance(root, Fiber):
             t = Tensor(rank_ids=[], shape=shape, name=name)
@@ -243,7 +245,11 @@ class Tensor:
             t._root = Payload(root)
             return t
 
-        return Tensor.fromFiber(rank_ids, root, shape=shape, name=name)
+        return Tensor.fromFiber(rank_ids,
+                                root,
+                                shape=shape,
+                                name=name,
+                                default=default)
 
 
     @classmethod
@@ -1948,8 +1954,12 @@ class Tensor:
 #
 
     @staticmethod
-    def parse(file):
-        """Parse a yaml file containing a tensor"""
+    def parse(file, default=0):
+        """Parse a yaml file containing a tensor
+
+        The `default` is used for files that hold no default value.
+
+        """
 
         with open(file, 'r') as stream:
             try:
@@ -1994,6 +2004,12 @@ class Tensor:
             name = ""
 
         #
+        # Get default value of the tensor
+        #
+        if 'default' in y_tensor:
+            default = y_tensor['default']
+
+        #
         # Make sure key "root" exists
         #
         if 'root' not in y_tensor:
@@ -2006,9 +2022,9 @@ class Tensor:
         # Generate the tree recursively
         #   Note: fibers are added into self.ranks inside method
         #
-        fiber = Fiber.dict2fiber(y_root[0])
+        fiber = Fiber.dict2fiber(y_root[0], default=default)
 
-        return (rank_ids, fiber, shape, name)
+        return (rank_ids, fiber, shape, name, default)
 
 
     def dump(self, filename):
@@ -2026,6 +2042,12 @@ class Tensor:
                         'shape': self.getShape(),
                         'name': self.getName(),
                         'root': [root_dict]}}
+
+        #
+        # The default value belongs to the leaf rank (a rank-0 tensor has none)
+        #
+        if len(self.ranks) > 0:
+            tensor_dict['tensor']['default'] = Payload.get(self.getDefault())
 
         with open(filename, 'w') as file:
             yaml.dump(tensor_dict, file)
